@@ -695,8 +695,8 @@ declarator(struct scope *s, struct qualtype base, char **name, struct scope **fu
 			if (t->u.array.length) {
 				e = eval(t->u.array.length);
 				if (e->kind == EXPRCONST && base.type->size) {
-					if (e->type->u.basic.issigned && e->u.constant.u >> 63)
-						error(&tok.loc, "array length must be non-negative");
+					if (e->u.constant.u == 0 || e->type->u.basic.issigned && e->u.constant.u >> 63)
+						error(&tok.loc, "array length must be positive");
 					if (e->u.constant.u > ULLONG_MAX / base.type->size)
 						error(&tok.loc, "array length is too large");
 					t->size = base.type->size * e->u.constant.u;
